@@ -10,7 +10,7 @@ import gen_m1 as g1  # noqa: E402
 import sx  # noqa: E402
 
 TICK = 10**10
-ASSUMPTIONS_M2 = [
+ASSUMPTIONS_M2 = ["runner: trajectories are built from point lists of plain numbers (every third time a Fraction), plain envelopes from events with float and (every third) ratio durations; time arguments come in all kinds of Duration.Type; a quarter of the conversion trees are written in ratios throughout", 
     "theorems are about the real-number instance of the generic model (ideal arithmetic, no rounding); the executable instance uses binary64 with the same expression trees as the implementation",
     "modelled, not verified: binary64 evaluation stays within the comparison tolerance (1e-9 relative, +-2 ticks for converted durations) of the real value; the 10-digit rounding of duration quotients is negligible",
     "times are exact multiples of 1e-10 beat below 1e4 beats; query times are on a control point or >= 1e-6 beat away from a repeated-time jump",
